@@ -42,6 +42,16 @@ def gen_case(rng, style):
     busy = {}             # number -> requester that may still be running
     nreq = 0
     alive = [True] * np_
+    # prelude: most connections reserve calls and announce something early
+    pre = []
+    for p in range(np_):
+        if rng.chance(3, 4):
+            pre += [["permit", p]] * rng.range(1, 3)
+            pre.append(["avail", p] + ([0, 12] if style == "race" and rng.chance(1, 2) else gen_avail(rng, 1, hi)))
+    if pre:
+        pre = rng.shuffle(pre)
+        cut = rng.below(len(pre) + 1)
+        steps += [x for x in (pre[:cut], pre[cut:]) if x]
     for _ in range(nsteps):
         b = rng.below(20)
         nops = 1 if b < 11 else 2 if b < 16 else 3 if b < 19 else rng.range(4, 6)
@@ -64,11 +74,11 @@ def gen_case(rng, style):
                     ops.append(["permit", p])
             elif k < 44:
                 ops.append(["avail", p] + gen_avail(rng, 1, hi))
-            elif k < 64:
+            elif k < 66:
                 ops.append(["permit", p])
-            elif k < 76:
+            elif k < 78:
                 ops.append(["fail", p, 0 if rng.chance(4, 5) else rng.below(3)])
-            elif k < 87:
+            elif k < 89:
                 ops.append(["succeed", p, 0 if rng.chance(4, 5) else rng.below(3)])
             elif k < 95:
                 cand = [r for r in started if r not in cancelled]
@@ -82,6 +92,8 @@ def gen_case(rng, style):
             elif k < 98:
                 if sum(alive) > 1 or rng.chance(1, 4):
                     alive[p] = False
+                    if rng.chance(1, 2):     # the connection dies exactly when something becomes acceptable
+                        ops.append(["avail", p, 0, 12])
                     ops.append(["disc", p])
                 else:
                     ops.append(["permit", p])
